@@ -18,7 +18,8 @@ JsonOfPos(p) == [cells |-> [i \in 1..64 |-> p.cells[i - 1]], side |-> p.side,
 SimInit == Init /\ hst = <<>>
 \* simulation picks uniformly among successor STATES: drop the pure no-ops so that behaviours are
 \* dominated by pushes, pops, outcome calculations and walker steps
-SimStep == PushLegal \/ PushLegal \/ PushIllegal \/ Pop \/ SetAuto \/ (ChLen(ch) >= 2 /\ SetOutcome) \/ ClearOutcome
+SimStep == PushLegal \/ PushLegal \/ PushIllegal \/ (ChLen(ch) % 5 = 1 /\ PushList) \/ Pop \/ SetAuto \/ (ChLen(ch) >= 2 /\ SetOutcome) \/ ClearOutcome
+           \/ (ChLen(ch) >= 1 /\ ResetOutcome)
            \/ (ChLen(ch) >= 2 /\ WalkNew) \/ WalkDrop \/ WalkNext \/ WalkPrev \/ WalkStart \/ WalkEnd
 SimNext == SimStep /\ hst' = Append(hst, [act |-> obs', pos |-> JsonOfPos(Cur(ch')), len |-> ChLen(ch'),
                                         outcome |-> ch'.outcome])
